@@ -71,6 +71,11 @@ type simCluster struct {
 	entries   map[[2]uint64]string // (index, term) -> type/data/prevterm
 	committed map[uint64]string    // index -> entry (term/type/data)
 	nextPay   int
+	// abstract shadow (vh raft abs): static membership, no snapshots; every event is reported to coq/Abs/Exec.v
+	static bool
+	abs    *absShadow
+	hint   absHint
+	hintp  *absHint // filled in by the event itself (a request written by a replication)
 }
 
 func (c *simCluster) note(format string, a ...interface{}) {
@@ -357,6 +362,13 @@ func (c *simCluster) run(n *simNode, desc, ev string, fn func() (response, []str
 	preCommit := n.r.commitIndex
 	preRemoveLTE := n.l.removeLTE
 	var o stepObs
+	hint := c.hint
+	c.hint = absHint{}
+	hintp := c.hintp
+	c.hintp = nil
+	if c.abs != nil {
+		c.abs.before(n)
+	}
 	if c.imager != nil {
 		inner := fn
 		// entries up to this bound are not legitimately removed by the event
@@ -395,6 +407,15 @@ func (c *simCluster) run(n *simNode, desc, ev string, fn func() (response, []str
 		newremovelte = 0
 	}
 	c.emit(n, desc, ev, pre, c.options(n, newprev, newremovelte), o)
+	if c.abs != nil && o.panicv == nil {
+		if hintp != nil && hintp.kind != "" {
+			hint = *hintp
+		}
+		if hint.kind == "votereq" {
+			hint.granted = o.resp != nil && o.resp.getResult() == success
+		}
+		c.abs.record(c, n, ev, hint, false)
+	}
 	if o.panicv != nil {
 		c.crash(n.r.nid, false)
 	} else {
@@ -621,6 +642,9 @@ func (c *simCluster) crash(id uint64, emit bool) {
 		ev := fmt.Sprintf("(ERestart %d)", nn.r.log.LastIndex())
 		c.emit(nn, "restart", ev, pre, opts, stepObs{})
 	}
+	if c.abs != nil {
+		c.abs.record(c, nn, "", absHint{}, true)
+	}
 	c.note("n%d restarted", id)
 }
 
@@ -727,6 +751,9 @@ func (c *simCluster) doTimeout(n *simNode) {
 }
 
 func (c *simCluster) snapshotStep(n *simNode) {
+	if c.static {
+		return
+	}
 	id := n.r.nid
 	switch {
 	case n.snapReq != nil && !n.snapReq.ran:
@@ -847,6 +874,7 @@ func (c *simCluster) candidateStep(n *simNode) {
 	// the candidate's own vote first, as the select loop would most likely see it
 	select {
 	case v := <-n.c.respCh:
+		c.hint = absHint{kind: "voteres", from: v.from, granted: v.getResult() == success && v.getTerm() <= n.r.term}
 		c.run(n, "selfVote", fmt.Sprintf("(EVoteResult %d %d)", v.getTerm(), uint8(v.getResult())), func() (response, []string) {
 			n.c.onVoteResult(v)
 			return nil, nil
@@ -886,6 +914,18 @@ func (c *simCluster) deliver(i int) {
 	}
 	if !m.isResp {
 		var res simResp
+		if c.abs != nil {
+			switch m.kind {
+			case rpcVote:
+				q := &voteReq{}
+				if err := q.decode(bytes.NewReader(m.wire[1:])); err == nil {
+					c.hint = absHint{kind: "votereq", term: q.term, cand: q.src}
+				}
+			case rpcAppendEntries:
+				q, es := decodeAppendWire(m.wire)
+				c.hint = absHint{kind: "recv", req: q, ents: es}
+			}
+		}
 		pv := c.run(dst, "recv "+m.kind.String()+fmt.Sprintf(" from %d", m.from), m.lit, func() (response, []string) {
 			res = dst.deliverRPCNoSettle(m.wire)
 			if res.panicv != nil {
@@ -922,6 +962,7 @@ func (c *simCluster) deliver(i int) {
 			return
 		}
 		v := rpcResponse{response: m.resp, from: m.from}
+		c.hint = absHint{kind: "voteres", from: m.from, granted: m.resp.getResult() == success && m.resp.getTerm() <= dst.r.term}
 		c.run(dst, fmt.Sprintf("voteResult from %d", m.from), fmt.Sprintf("(EVoteResult %d %d)", m.resp.getTerm(), uint8(m.resp.getResult())), func() (response, []string) {
 			dst.c.onVoteResult(v)
 			return nil, nil
@@ -947,6 +988,9 @@ func (c *simCluster) deliver(i int) {
 			return
 		}
 		ev := fmt.Sprintf("(ELeader (LFlrResp %d %d %d %d %d))", m.from, uint8(ar.result), ar.term, ar.lastLogIndex, m.reqLast)
+		if ar.result == success {
+			c.hint = absHint{kind: "ack", from: m.from, match: m.reqLast}
+		}
 		c.run(dst, fmt.Sprintf("appendResp from %d", m.from), ev, func() (response, []string) {
 			_ = rp.onAppendEntriesResp(ar, m.reqLast)
 			return nil, c.drainUpdates(dst)
@@ -1130,6 +1174,8 @@ func (c *simCluster) doFlrOpt(n *simNode, fid uint64, sendFirst bool) {
 	sendEntries := c.piping[key]
 	var wire []byte
 	var needSnap bool
+	sendHint := &absHint{}
+	c.hintp = sendHint
 	pv := c.run(n, fmt.Sprintf("flr %d send entries=%v", fid, sendEntries), fmt.Sprintf("(ELeader (LFlrSend %d %s))", fid, coqBool(sendEntries)), func() (response, []string) {
 		cn, buf := simConn(nil)
 		err := rp.writeAppendEntriesReq(cn, rq, sendEntries)
@@ -1155,6 +1201,7 @@ func (c *simCluster) doFlrOpt(n *simNode, fid uint64, sendFirst bool) {
 			}
 			es = append(es, e)
 		}
+		*sendHint = absHint{kind: "send", req: q, ents: es}
 		return nil, []string{fmt.Sprintf("(MAppend %d %s)", fid, coqAppendReq(q, es))}
 	})
 	if pv != nil {
@@ -1277,6 +1324,9 @@ func (c *simCluster) sendSnapshot(n *simNode, fid uint64, rq *appendReq) {
 }
 
 func (c *simCluster) changeConfig(n *simNode) {
+	if c.static {
+		return
+	}
 	id := n.r.nid
 	cur := n.r.configs.Latest.clone()
 	nc := cur.clone()
